@@ -24,7 +24,7 @@ RULE = ("(1) exhaustive introspection: every object of pdpy11.insns.instructions
         "`.repeat N { insn }` stream with compound index expressions (a+b(Rn), @a+b(Rn), -a(Rn), ^Cx(Rn)) where every copy is judged, and address-dependent operands inside .repeat (relative, @relative, branch, sob to labels outside the "
         "block before/after it, absolute numbers, symbols, .+-k; counts 2..4, nested .repeat, a nop before the instruction, a body whose "
         "length varies between copies through .even; also immediate / absolute / index / inline-number operand expressions through / % << _ on "
-        "<.-label>, which take a different value in every copy) where every copy is judged at the address its bytes occupy in the image; quick tier: each form of each position once with a seeded partner, "
+        "<.-label>, which take a different value in every copy) where every copy is judged at the address its bytes occupy in the image; plus a linked-program stream: programs linked from 1..4 source files (thorough: 1..5) with the instruction in every file position and the referenced labels in every file (before / in / after the instruction's file; labels made global by `::`, `.extern names` or `.extern all`; default link base and .link 400/2000/4000/100000), whose operand is an integer EXPRESSION over label addresses -- label, label+-c, constant*label with the constant on the left and on the right of `*`, k*a+c, c+k*a, k*a-a, k*<a+c>, <a+c>*k, -k*a, -a, b-a, a+b, k*<b-a>, <b-a>*k, k*b-k*a, k*a+-b, a+k*b, -a+k*b, k*<a+b>, <a+b>*k (27 shapes) -- in every operand form that carries a word or displacement (#, @#, X(rN), @X(rN), relative, @relative, branch target); every number of files x instruction file x label file x operand form once, and every shape x operand form once; the expected value is computed with unbounded integers from the image layout (link base + sizes of the files before + offset in the file) and the instruction is judged at its image offset, the rest of the image must be zero and the total length exact; quick tier: each form of each position once with a seeded partner, "
         "thorough tier: full cross product of the canonical spellings for two-operand mnemonics. "
         "Each case carries the implementation's outcome and words; Coq judges correspondence (model = implementation) and the "
         "property (Spec.decode of the implementation's words = Spec.expect of the line, all words consumed; a line without "
@@ -38,15 +38,17 @@ LEVEL_TEXT = ("Coq theorems over the opcode table regenerated from architecture.
               "exhaustive introspection of the 252 Instruction objects and an end-to-end sweep of every mnemonic x operand form.")
 LEVEL_NOTE = ("Trusted: Coq kernel + vm_compute, tools/translate.py + tools/gens/gen_insns.py, the sweep harness (operand printer in "
               "tools/insn_cases.py), Spec/PDP11.v (numeric opcode table; 1801VM2/LSI-11/maintenance rows have no source independent of "
-              "the repository). The classification of token trees into operand forms (hoist, isinstance cascade) is not modelled: it is "
-              "tied by the end-to-end sweep only. An explicitly written (pc)+/@(pc)+ is outside encode_decode (C01_pc_autoinc_partial). "
+              "the repository). The classification of token trees into operand forms (hoist, isinstance cascade) is modelled in Model/Classify.v "
+              "(theorems C01_classify_*: total, sound and complete w.r.t. the written forms, expression-opaque) and tied by tools/classify_corr.py "
+              "(direct drive of the real encode with eager Deferred computation disabled in the harness, plus end to end); get_opcode / indexes_of_char "
+              "are regenerated from the AST (gen_pure2) and proved equal to the model (T_insns2). In the linked-program stream the addresses of labels and the integer value of the operand expression are computed by the harness (plain unbounded integer arithmetic over the file layout it generated itself: an independent restatement used to state the abstract operand); Coq then judges Spec.decode of the emitted words against Spec.expect of that operand. Placement of linked files and expression arithmetic as such are C02/C16 and C05/C09 subjects; here they are exercised only through instruction operands. An explicitly written (pc)+/@(pc)+ is outside encode_decode (C01_pc_autoinc_partial). "
               "Print Assumptions: closed under the global context for every theorem.")
 TECHNIQUE = "Coq proof over regenerated table (exhaustive vm_compute + structural lemmas) + exhaustive model/implementation correspondence"
 ASSUME = ["an abstract operand OAcc n stands for the token acN in a floating position or with no user symbol of that name defined; a defined "
           "symbol named acN elsewhere is represented as the ordinary expression (Spec.token_acc, mirrored by the sweep's printer)",
           "pdpy11's 'signed' inline number convention (-2^n < v < 2^n, stored mod 2^n) for emt/trap and 16-bit operand values is intended",
           "the 1801VM2 / LSI-11 / maintenance opcodes in Spec/PDP11.v are as in the repository (no independent source)"]
-TRUSTED = ["tools/insn_cases.py: printer from abstract operands to source text", "tools/gens/gen_insns.py: source-shape pins of insns.py"]
+TRUSTED = ["tools/insn_cases.py: printer from abstract operands to source text", "tools/classify_corr.py: token -> optree converter and the lazy-construct patch of Deferred used while driving encode", "tools/gens/gen_pure2.py: state-passing translator (loops, list/dict mutation)", "tools/gens/gen_insns.py: source-shape pins of insns.py"]
 
 REQ = "Spec.PDP11 Run.C01Run"
 PRE = "Open Scope string_scope.\nOpen Scope Z_scope."
@@ -473,6 +475,166 @@ def numlabel_cases(intro, rng, tier):
     return cases
 
 
+# ------------------------------------------------------------------------------------------------
+# programs LINKED from 1..4 source files, operand EXPRESSIONS over label addresses.
+# The operand value is an integer expression over the addresses of two labels a (l<j>) and b (m<j>) that may lie in any
+# file of the program (before / in / after the file that holds the instruction): label, label+c, a constant times a label
+# with the constant on the LEFT and on the RIGHT of '*', scaled sums and differences of labels, bracketed with <>.
+# The expected value is computed here with unbounded integers from the image layout (link base + sizes of the files before
+# + offset in the file); Coq judges Spec.decode of the emitted words against Spec.expect of the operand carrying that value.
+class LinkedCase(SlicedCase):
+    __slots__ = ("files",)
+
+    def describe(self):
+        d = SlicedCase.describe(self)
+        d["files"] = [list(f) for f in self.files]
+        return d
+
+
+LINK_SHAPES = [  # key, text over {a} {b} {k} {c}, value(A, B, k, c), uses b
+    ("a", "{a}", lambda A, B, k, c: A, False),
+    ("a+c", "{a}+{c}", lambda A, B, k, c: A + c, False),
+    ("a-c", "{a}-{c}", lambda A, B, k, c: A - c, False),
+    ("k*a", "{k}*{a}", lambda A, B, k, c: k * A, False),
+    ("a*k", "{a}*{k}", lambda A, B, k, c: A * k, False),
+    ("k*a+c", "{k}*{a}+{c}", lambda A, B, k, c: k * A + c, False),
+    ("c+k*a", "{c}+{k}*{a}", lambda A, B, k, c: c + k * A, False),
+    ("a*k+c", "{a}*{k}+{c}", lambda A, B, k, c: A * k + c, False),
+    ("k*a-a", "{k}*{a}-{a}", lambda A, B, k, c: k * A - A, False),
+    ("a*k-a", "{a}*{k}-{a}", lambda A, B, k, c: A * k - A, False),
+    ("k*<a+c>", "{k}*<{a}+{c}>", lambda A, B, k, c: k * (A + c), False),
+    ("<a+c>*k", "<{a}+{c}>*{k}", lambda A, B, k, c: (A + c) * k, False),
+    ("-k*a", "-{k}*{a}", lambda A, B, k, c: -k * A, False),
+    ("-a", "-{a}", lambda A, B, k, c: -A, False),
+    ("b-a", "{b}-{a}", lambda A, B, k, c: B - A, True),
+    ("a+b", "{a}+{b}", lambda A, B, k, c: A + B, True),
+    ("k*<b-a>", "{k}*<{b}-{a}>", lambda A, B, k, c: k * (B - A), True),
+    ("<b-a>*k", "<{b}-{a}>*{k}", lambda A, B, k, c: (B - A) * k, True),
+    ("k*<b-a>+c", "{k}*<{b}-{a}>+{c}", lambda A, B, k, c: k * (B - A) + c, True),
+    ("k*b-k*a", "{k}*{b}-{k}*{a}", lambda A, B, k, c: k * B - k * A, True),
+    ("k*a+b", "{k}*{a}+{b}", lambda A, B, k, c: k * A + B, True),
+    ("a+k*b", "{a}+{k}*{b}", lambda A, B, k, c: A + k * B, True),
+    ("k*a-b", "{k}*{a}-{b}", lambda A, B, k, c: k * A - B, True),
+    ("a*k-b", "{a}*{k}-{b}", lambda A, B, k, c: A * k - B, True),
+    ("-a+k*b", "-{a}+{k}*{b}", lambda A, B, k, c: -A + k * B, True),
+    ("k*<a+b>", "{k}*<{a}+{b}>", lambda A, B, k, c: k * (A + B), True),
+    ("<a+b>*k", "<{a}+{b}>*{k}", lambda A, B, k, c: (A + B) * k, True),
+]
+LINK_BRANCH_SHAPES = ("a", "a+c", "a-c")
+LINK_WRAPS = [("#", "#%s", "OImm"), ("@#", "@#%s", "OAbs"), ("X(r)", "%s(%s)", "OIndex"), ("@X(r)", "@%s(%s)", "OIndexDef"),
+              ("rel", "%s", "ORel"), ("@rel", "@%s", "ORelDef"), ("B", "%s", "ORel")]
+LINK_MNEMONICS = [("mov", 0), ("mov", 1), ("cmp", 0), ("cmp", 1), ("add", 0), ("bis", 1), ("movb", 0), ("clr", 0), ("tst", 0), ("jmp", 0),
+                  ("jsr", 1), ("mul", 0), ("xor", 1), ("ldf", 0), ("stf", 1), ("tstf", 0), ("push", 0), ("pop", 0), ("call", 0)]
+LINK_BASES = [None, None, 0o400, 0o2000, 0o4000, 0o100000]
+
+
+def linked_case(by, rng, nf, fi, la, lb, wrap, shape):
+    """one program of nf files; instruction in file fi, label a = l<la> in file la, label b = m<lb> in file lb"""
+    wkey, wtext, ctor = wrap
+    skey, stext, sval, _uses_b = shape
+    for _try in range(20):
+        base = rng.choice(LINK_BASES)
+        b0 = 0o1000 if base is None else base
+        if wkey == "B":
+            m, pos = rng.choice(["br", "bne", "bcs", "bge", "blos"]), 0
+        else:
+            m, pos = rng.choice([x for x in LINK_MNEMONICS if x[0] in by])
+        stubs = by[m]
+        r = rng.randrange(7)
+        k = rng.choice([2, 3, 5])
+        c = rng.choice([2, 4, 6, 0o20]) if wkey == "B" else rng.choice([1, 2, 3, 6, 0o100])
+        # the layout of every file: items are ("blk", n) | ("lab", name) | ("insn",)
+        layouts, decls = [], []
+        for j in range(nf):
+            items = []
+            p = rng.choice([0, 2, 4, 10])
+            if p:
+                items.append(("blk", p))
+            for name in rng.sample(["l%d" % j, "m%d" % j], 2):
+                items += [("lab", name), ("blk", rng.choice([2, 4, 6]))]
+            if j == fi:
+                items.insert(rng.randrange(len(items) + 1), ("insn",))
+            referenced = j in (la, lb)
+            decls.append(rng.choice(["::", ".extern names", ".extern all"] + (["plain"] if (not referenced or (j == fi and nf == 1)) else [])))
+            layouts.append(items)
+        # first pass: the instruction's length does not depend on the values
+        fs = [partner_form(st, rng, b0) for st in stubs]
+        fs[pos] = IC.Form((ctor, 0, r) if ctor.startswith("OIndex") else (ctor, 0), "x")
+        ilen = insn_len(stubs, [f.op for f in fs])
+        addr_of, start, insn_off = {}, 0, None
+        for j, items in enumerate(layouts):
+            o = start
+            for it in items:
+                if it[0] == "blk":
+                    o += it[1]
+                elif it[0] == "lab":
+                    addr_of[it[1]] = b0 + o
+                else:
+                    insn_off = o
+                    o += ilen
+            start = o
+        total = start
+        A, B = addr_of["l%d" % la], addr_of["m%d" % lb]
+        v = sval(A, B, k, c)
+        addr = b0 + insn_off
+        if not -0o200000 < v < 0o200000:
+            continue
+        if wkey == "B" and not (-250 <= v - (addr + 2) <= 250 and v % 2 == 0):
+            continue
+        nk, nc = rng.choice([IC.num, IC.octnum])(k), rng.choice([IC.num, IC.octnum])(c)
+        e = stext.format(a="l%d" % la, b="m%d" % lb, k=nk, c=nc)
+        text = wtext % ((e, IC.REGNAMES[r]) if ctor.startswith("OIndex") else e)
+        fs[pos] = IC.Form((ctor, v, r) if ctor.startswith("OIndex") else (ctor, v), text, key="link:%s:%s" % (wkey, skey))
+        line = m + " " + ", ".join(f.text for f in fs)
+        files = []
+        for j, (items, decl) in enumerate(zip(layouts, decls)):
+            lines = []
+            if j == 0 and base is not None:
+                lines.append(".link " + IC.octnum(base))
+            if decl == ".extern all":
+                lines.append(".extern all")
+            elif decl == ".extern names":
+                lines.append(".extern l%d, m%d" % (j, j))
+            for it in items:
+                if it[0] == "blk":
+                    lines.append(".blkb " + IC.num(it[1]))
+                elif it[0] == "lab":
+                    lines.append(it[1] + ("::" if decl == "::" else ":"))
+                else:
+                    lines.append(line)
+            files.append(("f%d.mac" % j, "\n".join(lines) + "\n"))
+        cs = LinkedCase(m, fs, addr)
+        cs.kind = "linked:files%d:insn-in-%d:a-in-%d:b-in-%d" % (nf, fi, la, lb)
+        cs.off, cs.ilen, cs.total = insn_off, ilen, total
+        cs.files = files
+        cs.src = "".join("; --- %s\n%s" % f for f in files)
+        return cs
+    return None
+
+
+def linked_cases(intro, rng, tier):
+    by = {n: st for n, _p, st in intro}
+    shapes = {s[0]: s for s in LINK_SHAPES}
+    cases = []
+    reps = 1 if tier == "quick" else 4
+    # (i) every number of files x file of the instruction x file of the label, in every operand form that carries a word / a displacement
+    for nf in range(1, 5 if tier == "quick" else 6):
+        for fi in range(nf):
+            for la in range(nf):
+                for wrap in LINK_WRAPS:
+                    for _ in range(reps):
+                        sh = shapes[rng.choice(LINK_BRANCH_SHAPES)] if wrap[0] == "B" else rng.choice(LINK_SHAPES)
+                        cases.append(linked_case(by, rng, nf, fi, la, rng.randrange(nf), wrap, sh))
+    # (ii) every expression shape x every operand form, in programs of 1..4 files
+    for sh in LINK_SHAPES:
+        for wrap in LINK_WRAPS:
+            if wrap[0] == "B" and sh[0] not in LINK_BRANCH_SHAPES:
+                continue
+            for _ in range(reps):
+                nf = rng.choice([1, 2, 3, 3, 4])
+                cases.append(linked_case(by, rng, nf, rng.randrange(nf), rng.randrange(nf), rng.randrange(nf), wrap, sh))
+    return [c for c in cases if c is not None]
+
 
 def judge_cases(rep, cases, what):
     terms = [c.term() for c in cases]
@@ -519,10 +681,12 @@ def explore(rep, br, tier, seed):
     # (2) end to end
     cases = build_cases(intro, rng, tier)
     main_n = len(cases)
-    cases += near_miss_cases(intro, rng, tier) + repeat_cases(intro, rng, tier) + repeat_addr_cases(intro, rng, tier) + numlabel_cases(intro, rng, tier)
+    cases += near_miss_cases(intro, rng, tier) + repeat_cases(intro, rng, tier) + repeat_addr_cases(intro, rng, tier) + numlabel_cases(intro, rng, tier) + linked_cases(intro, rng, tier)
     IC.run_cases(cases)
     rep.count("e2e:near-miss-names", sum(1 for c in cases[main_n:] if c.kind.startswith("near")))
     rep.count("e2e:repeat-wrapped", sum(1 for c in cases[main_n:] if c.kind.startswith("repeat")))
+    rep.count("e2e:linked-files-label-expressions", sum(1 for c in cases[main_n:] if c.kind.startswith("linked")))
+    rep.count("e2e:linked-3-or-more-files", sum(1 for c in cases[main_n:] if c.kind.startswith("linked") and len(c.files) >= 3))
     for c in cases:
         rep.add_eval()
         rep.count("e2e:" + c.res["outcome"])
@@ -547,7 +711,7 @@ def search(rep, br, tier, seed):
     try:
         intro = IC.introspect()
         cases = build_cases(intro, rng, "quick", big=(tier != "thorough"))
-        cases += near_miss_cases(intro, rng, "thorough") + repeat_cases(intro, rng, "thorough") + repeat_addr_cases(intro, rng, "thorough") + numlabel_cases(intro, rng, "thorough")
+        cases += near_miss_cases(intro, rng, "thorough") + repeat_cases(intro, rng, "thorough") + repeat_addr_cases(intro, rng, "thorough") + numlabel_cases(intro, rng, "thorough") + linked_cases(intro, rng, "thorough")
         IC.run_cases(cases)
         rep.add_eval(len(cases))
         n = judge_cases(rep, cases, "search")
@@ -562,7 +726,8 @@ def replay(data):
         print(inp)
         return False
     r = impl.assemble([tuple(x) for x in inp["files"]])
-    print("source:", inp["files"][0][1].strip().replace("\n", " / "))
+    for fn, text in inp["files"]:
+        print("source %s:" % fn, text.strip().replace("\n", " / "))
     print("now:", {k: r.get(k) for k in ("outcome", "base", "code", "crash")})
     if "expected_code" in inp:
         return r["outcome"] == "ok" and r["code"] == inp["expected_code"]
@@ -580,8 +745,9 @@ def replay(data):
 # equal to the hand models this property's theorems are about; explore_t cross-checks the translator itself
 import t_check  # noqa: E402
 import t_check2  # noqa: E402  (tools/gens/gen_pure2.py: get_opcode + indexes_of_char regenerated from the AST, Props/T_insns2.v)
-PROP_FILES = PROP_FILES + ["Props/T_insns.v", "Props/T_insns2.v"]
-RUN_FILES = RUN_FILES + ["Run/TRunInsns.v", "Run/TRun2Insns.v"]
+import classify_corr  # noqa: E402  (Model/Classify.v: the isinstance cascade of RegisterModeOperandStub.encode / FP11RMOperandStub.encode)
+PROP_FILES = PROP_FILES + ["Props/T_insns.v", "Props/T_insns2.v", "Props/C01_classify.v"]
+RUN_FILES = RUN_FILES + ["Run/TRunInsns.v", "Run/TRun2Insns.v", "Run/C01ClassifyRun.v"]
 _explore_without_t = explore
 
 
@@ -589,3 +755,5 @@ def explore(rep, br, tier, seed):
     _explore_without_t(rep, br, tier, seed)
     t_check.explore_t(rep, tier, seed, pid=ID, only=["insns"])
     t_check2.explore_t2(rep, tier, seed, pid=ID)
+    classify_corr.explore_classify(rep, tier, seed)
+    rep.exhaustive_parts.append("operator classes of operators.py = enumeration of Model/Classify.v")
